@@ -111,13 +111,15 @@ var kernelList = []kernelSpec{
 	{"x/market/types", "MarketResolutionTicketPayload", "Validate"},
 	{"x/subaccount/keeper", "", "sumLockedBalance"},
 	{"x/reward/types", "Campaign", "CheckTS"},
+	{"utils", "", "PopStrAtIndex"},
+	{"x/ovm/types", "KeyVault", "SetLeader"},
 }
 
 // structs that only occur as parameters
 // functions taken to succeed: what they check is not modelled (denomination strings)
 var assumeOK = []kernelSpec{{"x/mint/types", "", "validateMintDenom"}}
 
-var extraStructs = []kernelSpec{{"x/bet/types", "Constraints", ""}, {"x/mint/types", "Phase", ""}, {"x/ovm/types", "Vote", ""}, {"x/market/types", "Odds", ""}}
+var extraStructs = []kernelSpec{{"x/bet/types", "Constraints", ""}, {"x/ovm/types", "PubkeysChangeProposalPayload", ""}, {"x/mint/types", "Phase", ""}, {"x/ovm/types", "Vote", ""}, {"x/market/types", "Odds", ""}}
 
 // A stateful kernel: a function that reads and writes module state through a keeper.  The state it touches is a record (emitted as
 // S_<name>) and every keeper / context method it may call is mapped to an operation on that record; anything else fails the translation.
@@ -156,7 +158,23 @@ var mktOps = map[string]stateOp{
 var mktFields = []stateField{{"TicketOK", "bool"}, {"UpdPayload", "G_MarketUpdateTicketPayload"}, {"ResPayload", "G_MarketResolutionTicketPayload"},
 	{"Found", "bool"}, {"Market", "G_Market"}, {"Queue", "list Z"}, {"Now", "Z"}}
 
+var ovmOps = map[string]stateOp{
+	"GetAllPubkeysChangeProposalsByStatus": {kind: "getok", field: []string{"Active"}, args: []string{"types.ProposalStatus_PROPOSAL_STATUS_ACTIVE"}},
+	"GetKeyVault":                          {kind: "find", field: []string{"Vault", "VaultFound"}, args: []string{""}},
+	"SetKeyVault":                          {kind: "set", field: []string{"Vault"}},
+	"GetPubkeysChangeProposal":             {kind: "findk", field: []string{"Active", "Id"}, args: []string{"types.ProposalStatus_PROPOSAL_STATUS_ACTIVE"}},
+	"RemoveProposal":                       {kind: "removek", field: []string{"Active", "Id"}, args: []string{"types.ProposalStatus_PROPOSAL_STATUS_ACTIVE"}},
+	"SetPubkeysChangeProposal":             {kind: "append", field: []string{"Finished"}},
+	"finishPubkeysChangeProposal":          {kind: "callerr", field: []string{"K_ovm_finishPubkeysChangeProposal"}},
+}
+var ovmFields = []stateField{{"Active", "list G_PublicKeysChangeProposal"}, {"Finished", "list G_PublicKeysChangeProposal"}, {"Vault", "G_KeyVault"},
+	{"VaultFound", "bool"}, {"Now", "Z"}}
+
 var statefulList = []statefulSpec{{
+	recv: "Keeper", pkg: "x/ovm/keeper", name: "finishPubkeysChangeProposal", state: "ovm", fields: ovmFields, keeperPkg: "x/ovm/keeper", ops: ovmOps, ctxTime: "Now",
+}, {
+	recv: "Keeper", pkg: "x/ovm/keeper", name: "finishPubkeysChangeProposals", state: "ovm", keeperPkg: "x/ovm/keeper", ops: ovmOps, ctxTime: "Now",
+}, {
 	recv: "Keeper", pkg: "x/market/keeper", name: "Resolve", state: "mkt", fields: mktFields, keeperPkg: "x/market/keeper", ops: mktOps,
 	ctxTime: "Now", returns: "value",
 }, {
@@ -338,6 +356,7 @@ type fctx struct {
 	nilErr   map[string]bool // error variables known to be nil (result of an infallible state operation)
 	nonNil   map[string]bool // error variables known to be non-nil (the failing branch of a fallible state operation)
 	stFields []stateField    // the fields of the state record of this stateful kernel
+	dropVars map[string]bool // string parameters of a stateful kernel: free text that is not modelled (result messages)
 }
 
 // stateCall: a keeper / context method of a stateful kernel; returns (expression, statement-effect, ok)
@@ -391,6 +410,9 @@ func (c *fctx) stateArgs(op stateOp, call *ast.CallExpr) []string {
 		}
 		args = append(args, c.expr(a))
 	}
+	if op.kind == "removek" {
+		c.checkConstArgs(op, call)
+	}
 	if op.kind == "move" && strings.Join(names, ",") != strings.Join(op.args, ",") {
 		c.fail("state operation called with (%s), expected (%s)", strings.Join(names, ","), strings.Join(op.args, ","))
 	}
@@ -422,6 +444,43 @@ func (c *fctx) ticketOp(op stateOp, call *ast.CallExpr, okB func() string, errB 
 		return c.fail("ticket operation: no payload field of type %s in the state", want)
 	}
 	return fmt.Sprintf("(if negb (%s_%s g_st) then %s else let %s := %s_%s g_st in\n  %s)", S, op.field[0], errB, ident(v.Name), S, field, okB())
+}
+
+func isString(t types.Type) bool {
+	if t == nil {
+		return false
+	}
+	b, ok := t.Underlying().(*types.Basic)
+	return ok && b.Info()&types.IsString != 0
+}
+
+// plainArgs: the arguments of a call of another stateful kernel: no context, no free text
+func (c *fctx) plainArgs(e *ast.CallExpr) []string {
+	var as []string
+	for _, a := range e.Args {
+		if isCtx(c.info.TypeOf(a)) || isString(c.info.TypeOf(a)) {
+			continue
+		}
+		as = append(as, c.expr(a))
+	}
+	return as
+}
+
+// checkConstArgs: every argument but the context and the last one must be spelled as the operation's spec lists (a store prefix constant)
+func (c *fctx) checkConstArgs(op stateOp, e *ast.CallExpr) {
+	var got []string
+	for _, a := range e.Args {
+		if isCtx(c.info.TypeOf(a)) {
+			continue
+		}
+		got = append(got, types.ExprString(a))
+	}
+	if op.kind != "getok" && len(got) > 0 {
+		got = got[:len(got)-1]
+	}
+	if strings.Join(got, ",") != strings.Join(op.args, ",") {
+		c.fail("state operation called with (%s), expected (%s)", strings.Join(got, ","), strings.Join(op.args, ","))
+	}
 }
 
 // findOp: v, found := k.Get(ctx, key): the record of the state and whether it exists; the key must be spelled as the spec lists
@@ -473,6 +532,14 @@ func (c *fctx) applyStateOp(op stateOp, args []string, rest string) string {
 		return out
 	case "nop":
 		return rest
+	case "removek":
+		el := ""
+		for _, f := range c.stFields {
+			if f.name == op.field[0] {
+				el = strings.TrimPrefix(f.typ, "list ")
+			}
+		}
+		return fmt.Sprintf("let g_st := set_%s_%s g_st (filter (fun g__x => negb (%s_%s g__x =? %s)) (%s_%s g_st)) in\n  %s", S, op.field[0], el, op.field[1], args[len(args)-1], S, op.field[0], rest)
 	case "append":
 		return fmt.Sprintf("let g_st := set_%s_%s g_st (%s_%s g_st ++ [%s]) in\n  %s", S, op.field[0], S, op.field[0], args[len(args)-1], rest)
 	}
@@ -669,7 +736,30 @@ func (c *fctx) expr(e ast.Expr) string {
 			return fmt.Sprintf("(knth %s %s 0)", c.expr(e.X), c.expr(e.Index))
 		}
 		return c.fail("index expression on a value that is not represented as a list")
+	case *ast.SliceExpr:
+		// xs[:i] / xs[i:] / xs[i:j] on a list
+		if gt, _ := c.k.galType(c.info.TypeOf(e.X)); strings.HasPrefix(gt, "list ") && !e.Slice3 {
+			x := c.expr(e.X)
+			if e.High != nil {
+				x = fmt.Sprintf("(firstn (Z.to_nat %s) %s)", c.expr(e.High), x)
+			}
+			if e.Low != nil {
+				x = fmt.Sprintf("(skipn (Z.to_nat %s) %s)", c.expr(e.Low), x)
+			}
+			return x
+		}
+		return c.fail("slice expression on a value that is not represented as a list")
 	case *ast.CompositeLit:
+		if gt, _ := c.k.galType(c.info.TypeOf(e)); strings.HasPrefix(gt, "list ") {
+			var els []string
+			for _, el := range e.Elts {
+				if _, ok := el.(*ast.KeyValueExpr); ok {
+					return c.fail("keyed slice literal")
+				}
+				els = append(els, c.expr(el))
+			}
+			return "[" + strings.Join(els, "; ") + "]"
+		}
 		s := c.k.structOf(c.info.TypeOf(e))
 		if s == "" {
 			return c.fail("composite literal of a type that is not translated")
@@ -729,6 +819,10 @@ func (c *fctx) call(e *ast.CallExpr) string {
 			args = append(args, "CONSTANT_STRING")
 			continue
 		}
+		if c.state != nil && isString(c.info.TypeOf(a)) {
+			args = append(args, "FREE_TEXT") // free text passed to a stateful callee: dropped there
+			continue
+		}
 		args = append(args, c.expr(a))
 	}
 	// conversions int64(x), uint64(x), T(x)
@@ -746,6 +840,17 @@ func (c *fctx) call(e *ast.CallExpr) string {
 			if c.k.assume[fn] {
 				return "true"
 			}
+		}
+		if f.Name == "append" && len(e.Args) >= 1 {
+			if gt, _ := c.k.galType(c.info.TypeOf(e.Args[0])); strings.HasPrefix(gt, "list ") {
+				if e.Ellipsis.IsValid() && len(e.Args) == 2 {
+					return fmt.Sprintf("(%s ++ %s)", args[0], args[1])
+				}
+				if !e.Ellipsis.IsValid() {
+					return fmt.Sprintf("(%s ++ [%s])", args[0], strings.Join(args[1:], "; "))
+				}
+			}
+			return c.fail("append on a value that is not represented as a list")
 		}
 		if f.Name == "len" && len(e.Args) == 1 {
 			if _, isSel := e.Args[0].(*ast.SelectorExpr); !isSel {
@@ -770,14 +875,28 @@ func (c *fctx) call(e *ast.CallExpr) string {
 			if op.kind == "find" {
 				return c.findOp(op, e)
 			}
-			if op.kind == "call" {
-				var as []string
-				for _, a := range e.Args {
-					if !isCtx(c.info.TypeOf(a)) {
-						as = append(as, c.expr(a))
+			if op.kind == "getok" {
+				c.checkConstArgs(op, e)
+				return fmt.Sprintf("(Some (S_%s_%s g_st))", c.state.state, op.field[0])
+			}
+			if op.kind == "findk" {
+				c.checkConstArgs(op, e)
+				S := "S_" + c.state.state
+				el := ""
+				for _, f := range c.stFields {
+					if f.name == op.field[0] {
+						el = strings.TrimPrefix(f.typ, "list ")
 					}
 				}
-				return fmt.Sprintf("(%s g_st %s)", op.field[0], strings.Join(as, " "))
+				key := c.expr(e.Args[len(e.Args)-1])
+				return fmt.Sprintf("(match find (fun g__x => %s_%s g__x =? %s) (%s_%s g_st) with Some g__x => (g__x, true) | None => (%s_zero, false) end)",
+					el, op.field[1], key, S, op.field[0], el)
+			}
+			if op.kind == "callerr" {
+				return fmt.Sprintf("(%s g_st %s)", op.field[0], strings.Join(c.plainArgs(e), " "))
+			}
+			if op.kind == "call" {
+				return fmt.Sprintf("(%s g_st %s)", op.field[0], strings.Join(c.plainArgs(e), " "))
 			}
 			if op.kind == "gets" {
 				var parts []string
@@ -1048,6 +1167,9 @@ func (c *fctx) assignedIn(body *ast.BlockStmt) []string {
 		if id == nil || id.Name == "_" {
 			return
 		}
+		if tt := c.info.TypeOf(id); tt != nil && tt.String() == "error" {
+			return // error variables are resolved where they are tested, they carry no state
+		}
 		if define {
 			declared[id.Name] = true
 			return
@@ -1098,6 +1220,9 @@ func (c *fctx) skippable(call *ast.CallExpr) bool {
 		if pn, ok := c.info.Uses[id].(*types.PkgName); ok && pn.Imported().Path() == "github.com/cosmos/cosmos-sdk/telemetry" {
 			return true
 		}
+		if pn, ok := c.info.Uses[id].(*types.PkgName); ok && pn.Imported().Path() == "fmt" && strings.HasPrefix(f.Sel.Name, "Print") {
+			return true // console output
+		}
 	}
 	// msg.EmitEvent(&ctx, ...): event emission of a message type
 	if f.Sel.Name == "EmitEvent" && len(call.Args) >= 1 {
@@ -1138,6 +1263,9 @@ func (c *fctx) allSkippable(list []ast.Stmt) bool {
 // loopOver: the body of a loop as a fold over the list `over` (the element is bound to vname); `after` are the statements that follow
 func (c *fctx) loopOver(lbody *ast.BlockStmt, vname string, over string, after []ast.Stmt) string {
 	var vars []string
+	if c.state != nil {
+		vars = append(vars, "g_st") // the state is threaded through the loop
+	}
 	for _, a := range c.assignedIn(lbody) {
 		vars = append(vars, ident(a))
 	}
@@ -1272,7 +1400,7 @@ func (c *fctx) stmts(list []ast.Stmt) string {
 	case *ast.IfStmt:
 		if s.Init != nil {
 			// if err := f(x); err != nil { body }   (f returns only an error: its translation is a bool, true = nil)
-			if as, ok := s.Init.(*ast.AssignStmt); ok && as.Tok == token.DEFINE && len(as.Lhs) == 1 && len(as.Rhs) == 1 && s.Else == nil {
+			if as, ok := s.Init.(*ast.AssignStmt); ok && (as.Tok == token.DEFINE || as.Tok == token.ASSIGN) && len(as.Lhs) == 1 && len(as.Rhs) == 1 && s.Else == nil {
 				if id, ok := as.Lhs[0].(*ast.Ident); ok {
 					if be, ok := s.Cond.(*ast.BinaryExpr); ok && be.Op == token.NEQ && isNilIdent(be.Y) {
 						if x, ok := be.X.(*ast.Ident); ok && x.Name == id.Name && c.info.TypeOf(as.Rhs[0]).String() == "error" {
@@ -1285,6 +1413,10 @@ func (c *fctx) stmts(list []ast.Stmt) string {
 									}
 									if op, ok := c.stateOpOf(f); ok && op.kind == "ticket" {
 										return c.ticketOp(op, call, rest, thenB)
+									}
+									// another stateful kernel that returns an error: the new state or the error branch
+									if op, ok := c.stateOpOf(f); ok && op.kind == "callerr" {
+										return fmt.Sprintf("match %s with\n  | Some g_st => %s\n  | None => %s\n  end", c.expr(call), rest(), thenB)
 									}
 									// a method that assigns to its receiver (a local variable): the translation returns the new value or None
 									if fn, ok := c.info.Uses[f.Sel].(*types.Func); ok && c.k.mutFn[fn] {
@@ -1423,6 +1555,12 @@ func (c *fctx) stmts(list []ast.Stmt) string {
 				if f, ok := call.Fun.(*ast.SelectorExpr); ok {
 					if op, ok := c.stateOpOf(f); ok {
 						switch {
+						case op.kind == "findk" && len(s.Lhs) == 2:
+							a, aok := s.Lhs[0].(*ast.Ident)
+							b, bok := s.Lhs[1].(*ast.Ident)
+							if aok && bok {
+								return fmt.Sprintf("let '(%s, %s) := %s in\n  %s", ident(a.Name), ident(b.Name), c.expr(call), rest())
+							}
 						case op.kind == "find" && len(s.Lhs) == 2:
 							a, aok := s.Lhs[0].(*ast.Ident)
 							b, bok := s.Lhs[1].(*ast.Ident)
@@ -1538,6 +1676,9 @@ func (c *fctx) stmts(list []ast.Stmt) string {
 		}
 		if len(s.Lhs) != 1 || len(s.Rhs) != 1 {
 			return c.fail("multiple assignment")
+		}
+		if id, ok := s.Rhs[0].(*ast.Ident); ok && c.dropVars[id.Name] {
+			return rest() // free text (a result message) is not modelled
 		}
 		rhs := c.expr(s.Rhs[0])
 		switch s.Tok {
@@ -1926,6 +2067,13 @@ func analyseKernels(w *world) string {
 		for j := 0; j < sig.Params().Len(); j++ {
 			pv := sig.Params().At(j)
 			if isCtx(pv.Type()) {
+				continue
+			}
+			if isString(pv.Type()) {
+				if c.dropVars == nil {
+					c.dropVars = map[string]bool{}
+				}
+				c.dropVars[pv.Name()] = true
 				continue
 			}
 			if gt, _ := k.galType(pv.Type()); gt != "" && !isAddr(pv.Type()) {
